@@ -463,6 +463,10 @@ class Conformance(UperBase):
             return None
         spec = model_ans.partition(" x691:")[2]
         if not ans.startswith("ok "):
+            # the one documented refusal of a value of the type: an absent extension addition in front of a
+            # present one (ext-inconsistent); any other refusal of a value the specification encodes is a failure
+            if ans.startswith("err ") and ans != "err ext-inconsistent" and spec not in ("", "none"):
+                return f"the writer refuses ({ans}) a value the specification encodes"
             return None
         if spec == "none":
             return "writer accepted a value the specification says is not a value of the type"
@@ -562,6 +566,7 @@ FAMILIES = [
     ["zoo_ver::EnuCaseV1", "zoo_ver::EnuCaseV2"],
     ["zoo_ver::ChoCaseV1", "zoo_ver::ChoCaseV2"],
     ["zoo_ver::WideV1", "zoo_ver::WideV2"],
+    *[[f"zoo_ver::RootV{i}V1", f"zoo_ver::RootV{i}V2"] for i in range(18)],
     ["zoo_ver::NulV1", "zoo_ver::NulV2", "zoo_ver::NulV3"],
     ["zoo_ver::NulWrapV1", "zoo_ver::NulWrapV2", "zoo_ver::NulWrapV3"],
     ["zoo_ver::EnuNumV1", "zoo_ver::EnuNumV2", "zoo_ver::EnuNumV3"],
